@@ -1469,3 +1469,76 @@ def c10_reader(env):
 REGISTRY.setdefault("C06", []).append(c06_start_send_chunks)
 REGISTRY.setdefault("C15", []).append(c15_frame_size_setters)
 REGISTRY.setdefault("C10", []).append(c10_reader)
+
+
+# ======================================================================================
+# C11: a link's output handle is released by OUR detach, indexed by OUR handle
+# ======================================================================================
+
+
+def c11_handle_release(env):
+    o = Obligation("c11_output_handle_release", "C11")
+    o.desc = "the table of local (output) handles is only ever indexed with OUR handle: Session::on_outgoing_detach releases (if anything) the handle carried by the outgoing detach (which is ours), and Session::on_incoming_detach never releases the handle number carried by the peer's detach (the peer numbers its handles independently, AMQP 2.6.2)"
+    out_fn = env.fn(r"^session::<impl at [^>]*>::on_outgoing_detach$")
+    in_fn = env.fn(r"^session::<impl at [^>]*>::on_incoming_detach::\{closure#0\}$")
+    o.functions = [out_fn.name, in_fn.name]
+    o.bounds = ["one call of each function; all 32-bit handle values; the incoming-detach coroutine from its initial state through every await completing or pending"]
+    o.assumes = ["Handle -> OutputHandle/InputHandle conversions copy the number (they are newtypes over u32)"]
+    h = BV32("detach.handle")
+
+    def conv(ex_, st, callee, args, argvals, dty):
+        v = argvals[0]
+        if isinstance(v, mir.Ref):
+            cont, key = ex_.resolve(st, list(v.path))
+            v = cont.get(key)
+        a = mir.Agg("handle")
+        a[0] = v[0] if isinstance(v, mir.Agg) and 0 in v else ex_.ctx.fresh("u32", "h")
+        return a
+
+    models = [(r"Handle as Clone>::clone$", conv), (r"Handle as Into<endpoint::(Output|Input)Handle>>::into$", conv), (r"(Output|Input)Handle as From<fe2o3_amqp_types::definitions::Handle>>::from$", conv)]
+
+    def replay(m):
+        return ["handles 1 0", "handles 5 9"], (lambda outs: any(js.get("panic") or js["c"] != js["a"] or js["b_name_reused"] or not js["detach_ok"] for js in outs))
+
+    # outgoing detach
+    ex = env.executor()
+    ex.models = list(models)
+    D = mir.Agg("detach")
+    hh = mir.Agg("Handle")
+    hh[0] = h
+    D[env.fidx("Detach", "handle")] = hh
+    paths = ex.run(out_fn, {"_1": mir.Ref(("@self",), True), "@self": mir.Agg("session"), "_2": D})
+    n = 0
+    for i, p in enumerate(paths):
+        if p.end != "return":
+            continue
+        n += 1
+        rel = [c for c in p.calls if c[0].endswith("::deallocate_link")]
+        # releasing later (e.g. once the peer has answered) would be legitimate too: at most once here
+        o.prove(f"outgoing path{i}:releases-at-most-once", ex.assumptions + p.cond, z3.BoolVal(len(rel) <= 1), replay=replay)
+        for c in rel:
+            arg = c[1][1]
+            o.prove(f"outgoing path{i}:releases-our-handle", ex.assumptions + c[2], arg[0] == h if isinstance(arg, mir.Agg) and 0 in arg else z3.BoolVal(False), replay=replay)
+    # incoming detach
+    ex = env.executor()
+    ex.models = list(models)
+    D = mir.Agg("detach")
+    hh = mir.Agg("Handle")
+    hh[0] = h
+    D[env.fidx("Detach", "handle")] = hh
+    pin, cor = coroutine_start(env, "@self", {1: D})
+    paths = ex.run(in_fn, {"_1": pin, "@cor": cor, "@self": mir.Agg("session")})
+    for i, p in enumerate(paths):
+        if p.end != "return":
+            continue
+        n += 1
+        for c in p.calls:
+            if c[0].endswith("::deallocate_link") or ("link_name_by_output_handle" in c[0]):
+                arg = c[1][1]
+                same = isinstance(arg, mir.Agg) and 0 in arg and z3.is_true(z3.simplify(arg[0] == h))
+                o.prove(f"incoming path{i}:peer-handle-never-indexes-our-handle-table", ex.assumptions + c[2], z3.BoolVal(not same), replay=replay)
+    o.cover("paths", [z3.BoolVal(n > 0)])
+    return [o]
+
+
+REGISTRY["C11"].append(c11_handle_release)
